@@ -146,4 +146,37 @@ MUTANTS = {
         "edits": [("Lib/fontTools/otlLib/builder.py", "        result = sorted(self.classes_, key=lambda s: (-len(s), s))", "        result = sorted(self.classes_, key=lambda s: -len(s))")],
         "check": ["C16", "--tier", "quick", "--only", "hashsweep"],
     },
+    # ---- C04
+    "c04_checksum_unpadded": {
+        "edits": [("Lib/fontTools/ttLib/sfnt.py", "    remainder = len(data) % 4\n    if remainder:\n        data += b\"\\0\" * (4 - remainder)", "    remainder = len(data) % 4\n    if remainder:\n        data = data[: len(data) - remainder]")],
+        "check": ["C04", "--tier", "quick", "--only", "save"],
+    },
+    "c04_searchrange_wrong": {
+        "edits": [("Lib/fontTools/ttLib/ttFont.py", "    rangeShift = max(0, n * itemSize - searchRange)", "    rangeShift = max(0, n * itemSize - searchRange) + (16 if n == 13 else 0)")],
+        "check": ["C04", "--tier", "quick", "--only", "save"],
+    },
+    "c04_tablecache_by_tag_only": {
+        "edits": [("Lib/fontTools/ttLib/ttFont.py", "            entry = tableCache.get((Tag(tag), tabledata))", "            entry = tableCache.get((Tag(tag), tabledata)) or (tableCache.get((Tag(tag), None)) if tag == \"OS/2\" else None)"), ("Lib/fontTools/ttLib/ttFont.py", "            tableCache[(Tag(tag), tabledata)] = writer[tag]", "            tableCache[(Tag(tag), tabledata)] = writer[tag]\n            tableCache[(Tag(tag), None)] = writer[tag]")],
+        "check": ["C04", "--tier", "quick", "--only", "ttc"],
+    },
+    "c04_hmetrics_trimmed_too_far": {
+        "edits": [("Lib/fontTools/ttLib/tables/_h_m_t_x.py", "            while metrics[lastIndex - 2][0] == lastAdvance:", "            while abs(metrics[lastIndex - 2][0] - lastAdvance) <= 1:")],
+        "check": ["C04", "--tier", "quick", "--only", "save,pipe"],
+    },
+    "c04_woff_totalsfntsize_unpadded": {
+        "edits": [("Lib/fontTools/ttLib/sfnt.py", "                self.totalSfntSize += (entry.origLength + 3) & ~3", "                self.totalSfntSize += entry.origLength")],
+        "check": ["C04", "--tier", "quick", "--only", "save"],
+    },
+    "c04_maxp_depth_off": {
+        "edits": [("Lib/fontTools/ttLib/tables/_m_a_x_p.py", "        self.maxComponentDepth = maxComponentDepth", "        self.maxComponentDepth = min(maxComponentDepth, 1)")],
+        "check": ["C04", "--tier", "quick", "--only", "save,pipe"],
+    },
+    "c04_hhea_extent_ignores_lsb": {
+        "edits": [("Lib/fontTools/ttLib/tables/_h_h_e_a.py", "                xMaxExtent = max(xMaxExtent, extent)", "                xMaxExtent = max(xMaxExtent, boundsWidth)")],
+        "check": ["C04", "--tier", "quick", "--only", "save,pipe"],
+    },
+    "c04_last_table_not_padded": {
+        "edits": [("Lib/fontTools/ttLib/sfnt.py", "        self.file.write(b\"\\0\" * (self.nextTableOffset - self.file.tell()))\n        assert self.nextTableOffset == self.file.tell()", "        if len(self.tables) + 1 < self.numTables:\n            self.file.write(b\"\\0\" * (self.nextTableOffset - self.file.tell()))")],
+        "check": ["C04", "--tier", "quick", "--only", "save"],
+    },
 }
